@@ -90,3 +90,9 @@ package manifest
 //@ func segmentedManifest.manifestTextForPath property C10,C17 safety -bounds
 //@   calls segmentedStream.normalizedText#2: requires k == srcpath || strings.HasPrefix(k, srcpath + "/")
 //@   calls segmentedStream.normalizedText#2: requires $0 == relocate + k[len(srcpath):]
+
+// fixStreamName: the canonical form of a stream name is "." or begins with
+// "./" (names whose first component starts with a dot included), so that it
+// can be compared with the stream names of the manifest.
+//@ func fixStreamName property C10,C17
+//@   ensures result == "." || strings.HasPrefix(result, "./")
